@@ -38,6 +38,7 @@ THEOREMS = [
     "C08.join_cells",
     "C08.slice_cells",
     "C08.index_cells",
+    "C08.index_after_append",
     "C08.fixedLen_cells",
     "C08.chunk_ops_cells",
     "C08.format_cells",
@@ -54,6 +55,7 @@ THEOREMS = [
     "C08.eval_observe",
     "C08.str_shows",
     "C08.palette_exists",
+    "C08.eq_not_by_rendering",
     "C08.format_str_strip",
     "C08.make_spec",
     "C08.resize_spec",
@@ -953,6 +955,24 @@ def _check_value(obj, ref, where, eq=True):
     shown = want if ESC in ref.plain else _cells_of_str(str(obj))
     if shown != want:
         raise Violation("str: %s: str() shows %s, expected %s" % (where, _r(shown), _r(want)))
+    # position arithmetic is looked at on every intermediate object, before and after every mutation: the last
+    # character, the tail, the head and a middle cut (a position table kept by the object must follow every +=)
+    n = len(want)
+    if n:
+        probes = [("[-1]", lambda o: o[-1], [want[-1]]), ("[%d]" % (n - 1), lambda o: o[n - 1], [want[-1]]),
+                  ("[-2:]", lambda o: o[-2:], want[-2:]), ("[%d:]" % (n - 1), lambda o: o[n - 1:], want[n - 1:]),
+                  ("[%d:%d]" % (n // 2, n), lambda o: o[n // 2:n], want[n // 2:]), ("[:1]", lambda o: o[:1], want[:1])]
+        for name, f, exp in probes:
+            try:
+                r = f(obj)
+            except IndexError:
+                raise Violation("index: %s%s raises IndexError, the str has %d characters" % (where, name, n))
+            if isinstance(r, col.CHText):
+                cells = [(ch, _col_id(c.c_prefix, c.c_suffix)) for c in r.chunks for ch in c.text]
+            else:
+                cells = [(ch, _col_id(r.c_prefix, r.c_suffix)) for ch in r.text]
+            if cells != exp:
+                raise Violation("index: %s%s shows %s, the same on str gives %s" % (where, name, _r(cells), _r(exp)))
     if isinstance(obj, col.CHText) and eq:
         others = [("chunk by chunk", _canon_text(ref))]
         if len(ref.plain) <= 300:                      # one += per character is quadratic
@@ -1521,6 +1541,13 @@ def gen_cases(rng, tier):
     for _ in range(3000 if quick else 60000):
         stmts = gen_history(rng, rng.randint(3, 7 if quick else 10), rng.choice([2, 3, 4]))
         yield _case(hist_line(stmts), "history")
+    # 5b'. long texts: many chunks, positions looked at, a merging +=, positions in the new tail
+    for k in CHUNK_COUNTS:
+        for _ in range(6 if quick else 60):
+            yield _case(hist_line(gen_long_history(rng, k)), "history-many-chunks")
+    # 5b''. == between a text and a text that holds the other's colour sequences as characters
+    for pair in _render_collisions(rng, 250 if quick else 5000):
+        yield _case(line_of("eq", pair), "eq-rendering-collision")
     # ... and `+=` operands that mention the target more than once or after other elements (four copies for
     # `t += [t, t]`): model = code only, the oracle stops judging there
     for base in BASES[1:]:
@@ -1578,6 +1605,49 @@ def _hist_part(rng, refs, ncol, depth=0, avoid=None):
     return ("c", rng.randrange(ncol), _rtext(rng))
 
 
+# numbers of chunks around the places where a helper may switch to another algorithm (bisect tables, blocks, ...)
+CHUNK_COUNTS = [15, 16, 17, 23, 24, 25, 31, 32, 33, 63, 64, 65, 100, 128, 129, 257]
+
+
+def _many_chunks(rng, k, ncol=3):
+    """k chunks, neighbours of different colours, 1-2 characters each"""
+    parts, c = [], rng.randrange(ncol)
+    for _ in range(k):
+        c = (c + 1 + rng.randrange(ncol - 1)) % ncol
+        parts.append(("c", c, _rtext(rng, 1, 2) or "q"))
+    return parts
+
+
+def gen_long_history(rng, k):
+    """a text of k chunks; look at positions (index / slice), append with the colour of the last chunk (merge: the
+    number of chunks stays), look at positions inside the new tail; then the same with another colour"""
+    stmts, refs = [], []
+
+    def push(st):
+        try:
+            ref_stmt(refs, st)
+        except (IndexError, OutOfModel):
+            pass
+        stmts.append(st)
+    push(("new", _many_chunks(rng, k)))
+    for rnd in range(rng.randint(1, 3)):
+        n = len(refs[0].plain)
+        push(rng.choice([("idx", 0, rng.randint(-n, n - 1)), ("sl", 0, rng.randint(0, n), None), ("sl", 0, -3, None)]))
+        c = refs[0].cols[-1]
+        same = rng.random() < 0.7
+        if not same:
+            c = (c + 1) % 3
+        tail = _rtext(rng, 1, 3) or "zz"
+        p = rng.choice([("s", tail)] if c == 0 else []) if (c == 0 and rng.random() < 0.5) else \
+            rng.choice([("c", c, tail), ("ls", [("c", c, tail)]), ("ls", [("c", c, ""), ("c", c, tail)])])
+        push(("iadd", 0, p))
+        n2 = len(refs[0].plain)
+        for st in rng.sample([("idx", 0, -1), ("idx", 0, n2 - 1), ("idx", 0, n), ("sl", 0, -2, None), ("sl", 0, n, None),
+                              ("sl", 0, n2 - 1, n2), ("sl", 0, n - 1, n + 1), ("fl", 0, n2 + 1), ("sl", 0, n // 2, None)], 3):
+            push(st)
+    return stmts
+
+
 def gen_history(rng, nstmt, ncol):
     """a random history; the reference state is tracked so that `+=` can aim at the merge path (same colour as
     the last character of the target), at re-rendering after a mutation, and at valid bounds"""
@@ -1592,7 +1662,10 @@ def gen_history(rng, nstmt, ncol):
             return False
         stmts.append(st)
         return True
-    push(("new", [_hist_part(rng, refs, ncol) for _ in range(rng.randint(0, 3))]))
+    if rng.random() < 0.04:
+        push(("new", _many_chunks(rng, rng.choice(CHUNK_COUNTS[:12]))))
+    else:
+        push(("new", [_hist_part(rng, refs, ncol) for _ in range(rng.randint(0, 3))]))
     while len(stmts) < nstmt:
         a = rng.randrange(len(refs))
         n = len(refs[a].plain)
@@ -1626,6 +1699,38 @@ def gen_history(rng, nstmt, ncol):
     return stmts
 
 
+def _render_collisions(rng, count):
+    """pairs (a, b) of texts with str(a) == str(b) where possible but different characters / colours / lengths: b has,
+    as visible characters, the prefix / suffix sequences that separate chunks of a (captured coloured output)"""
+    fm = _fmts()
+    for _ in range(count):
+        k = rng.randint(1, 4)
+        chunks, c = [], rng.randrange(4)
+        for _i in range(k):
+            c = (c + 1 + rng.randrange(3)) % 4
+            chunks.append((c, "".join(rng.choice("ab xy") for _j in range(rng.randint(0, 2)))))
+        a = ("mk", [("c", c, t) for c, t in chunks])
+        i = rng.randrange(k)
+        j = rng.randrange(i, k)
+        how = rng.randrange(4)
+        if how == 0:                      # the whole rendering as plain characters
+            content = "".join(fm[c][1] + t + fm[c][2] for c, t in chunks)
+            b = ("mk", [rng.choice([("s", content), ("c", 0, content)])])
+        else:                             # chunks i..j melted into one chunk of the colour of chunk i (or of a neighbour)
+            body = "".join(fm[c][1] + t + fm[c][2] for c, t in chunks[i:j + 1])
+            ci = chunks[i][0] if how < 3 else rng.randrange(4)
+            pre, suf = fm[ci][1], fm[ci][2]
+            if body.startswith(pre):
+                body = body[len(pre):]
+            if suf and body.endswith(suf):
+                body = body[:-len(suf)]
+            if how == 2 and body:          # near miss: one character of the sequence is wrong / missing
+                q = rng.randrange(len(body))
+                body = body[:q] + rng.choice(["", "1", "m"]) + body[q + 1:]
+            b = ("mk", [("c", c, t) for c, t in chunks[:i]] + [("c", ci, body)] + [("c", c, t) for c, t in chunks[j + 1:]])
+        yield [a, b] if rng.random() < 0.5 else [b, a]
+
+
 def corpus():
     """minimised witnesses of the mutation experiments (each distinguishes a realistic defect)"""
     lines = [
@@ -1656,6 +1761,9 @@ def corpus():
         # seed C08-m14: content with a colour sequence in it, given or formed by a merge
         "val s:99,32,27,91,51,51,109,49,27,91,109,32,102 mk:1",
         "val s:27,91 mk:1 s:49,109 add",
+        # seed C08-m16: a text holding the other's colour sequences as characters is another text
+        "eq s:27,91,51,49,109,97,27,91,48,109 mk:1 c:1:97 mk:1",
+        "eq c:1:97 c:2:98 mk:2 c:1:97,27,91,48,109,27,91,51,50,109,98 mk:1",
         "hist new c:1:97 s:98 ; add:0 c:2:99 ; iadd:0 s:100 ; iadd:1 c:2:101 ; sl:0:1:n ; iadd:0 o:0",
     ]
     return [{"lines": [l], "meta": {"kind": "corpus"}} for l in lines]
@@ -1807,7 +1915,11 @@ RULE = ("one case = one protocol line. Streams: (1) exhaustive slices/indexes/fi
         "replies are run-length encoded on both sides); "
         "(1c) a text / chunk / slice / sum used as the iterable: sep.join(x), list(x), CHText(list(x)), the for statement, "
         "on all base texts (one item per character is judged); (1d) content holding ESC, complete and split colour sequences "
-        "(values, == and histories); (2) random operation trees of depth <= 4 (thorough 6) over 2-6 colours and texts of 0-4 "
+        "(values, == and histories); "
+        "(1e) long texts: histories over a text of 15..257 chunks (around 16, 24, 32, 64, 128, 256) that is indexed / sliced, "
+        "extended by a += that merges into its last chunk, and indexed / sliced inside the new tail; == between a text and a "
+        "text whose characters are the other's colour sequences (same rendering, other cells and lengths); every checked "
+        "object is also probed at [-1], [n-1], [-2:], [n-1:], [n/2:], [:1]; (2) random operation trees of depth <= 4 (thorough 6) over 2-6 colours and texts of 0-4 "
         "(10%: 0-9) characters from 'abc xyz s05<é中' (constructor, +, +=, reflected + with str/list/tuple, join, [i], [i:j], "
         "fixed_len, list(x), x += x, x += [x], nested lists/tuples, empty operands), observed as value / format(spec) / == "
         "against a re-assembly of the same cells, a near miss, a str, a chunk; IndexError trees; (3) `u = x.fixed_len(n); "
@@ -1885,6 +1997,9 @@ def tags(case, replies):
             yield "hist-self-operand"
         if "err" in replies[0]:
             yield "hist-with-error"
+        k = max([len(st[1]) for st in stmts if st[0] == "new"] + [0])
+        if k >= 15:
+            yield "hist-chunks>=%d" % next(b for b in (257, 128, 64, 32, 24, 15) if k >= b)
         return
     if kind in ("val", "fmt", "eq", "alias"):
         # operand types of every dispatching operation, shape of the format spec
@@ -1937,7 +2052,9 @@ LEVEL_TEXT = ("Kernel-checked for all inputs on the Lean model of CHText / CHTex
               "does to what all objects show what it does to a store of plain sequences, keeps every object canonical and writes "
               "exactly one object (+= its target, anything else a new object: no operation returns or changes an operand); "
               "`t += t`, `t += [t]` double the text, `t += [t, t]` gives four copies (hist_self_twice); nothing observed depends on "
-              "an earlier state (no cache in the model; the tie re-renders every object after every statement); (6) str() and "
+              "an earlier state (no cache in the model; the tie re-renders and re-indexes every object after every statement; positions "
+              "follow a += that merges into the last chunk: index_after_append); == is chunk-wise and cannot be the comparison of the "
+              "renderings (eq_not_by_rendering: same str(), other cells); (6) str() and "
               "format() as strings, composed with C09's terminal and strip model (str_shows, format_str_strip, palette_exists): a "
               "terminal shows exactly the cells with the attributes of each character's formatter and ends in default state, "
               "strip_colors(str(x)) = plain_text, strip_colors(format(x, spec)) = format(plain_text, spec); (7) the internal "
